@@ -35,8 +35,17 @@ def ensure_wt():
         print(r.stdout[-3000:]); sys.exit(2)
 
 
+CAPI = False
+
+
 def build_demo(demo, out):
-    r = sh("g++ -std=gnu++17 -O1 -w -frounding-math -DHAVE_CONFIG_H -I%s -I%s/src %s %s/_mut/libppl.a -lgmpxx -lgmp -o %s" % (WT, WT, demo, WT, out))
+    if CAPI:
+        b = sh("/tmp/mut_tools/build_capi.sh %s 16" % WT)
+        if b.returncode != 0:
+            return False, b.stdout[-2000:]
+        r = sh("g++ -std=gnu++17 -O1 -w -I%s/_mut/capi %s %s/_mut/libppl_c.a %s/_mut/libppl.a -lgmpxx -lgmp -o %s" % (WT, demo, WT, WT, out))
+    else:
+        r = sh("g++ -std=gnu++17 -O1 -w -frounding-math -DHAVE_CONFIG_H -I%s -I%s/src %s %s/_mut/libppl.a -lgmpxx -lgmp -o %s" % (WT, WT, demo, WT, out))
     return r.returncode == 0, r.stdout[-2000:]
 
 
@@ -53,6 +62,8 @@ def main():
         elif a[i] == "--tier": tier = a[i + 1]; i += 2
         else: i += 1
     meta = json.load(open(src + "/meta.json"))
+    global CAPI
+    CAPI = meta.get("property") == "C20"
     if not checks:
         checks = [meta.get("property")]
     dst = "%s/seeded/%s" % (ROOT, name)
